@@ -61,7 +61,46 @@ func GenC14(seed uint64, i int) *world.Case {
 			c.Script = append(c.Script, cl...)
 		}
 	}
-	if cfg.Executor == "cluster" && r.Chance(0.5) {
+	if r.Chance(0.25) {
+		// A task that fails in user code is an exit path too: a persistent panic in
+		// a reduce function (wherever it is called from: the task's own table, the
+		// shared buffer, the consumer's merge of its dependencies) or a reader error;
+		// afterwards a fault-free run has to find all capacity returned.
+		var sites []string
+		walkSteps(c.Script, func(st *world.Step) {
+			if st.Spec == nil {
+				return
+			}
+			for ni, n := range st.Spec.Nodes {
+				if n.Op == "reduce" || n.Op == "readerfunc" {
+					sites = append(sites, n.Op+"|"+st.Spec.Site(ni))
+				}
+			}
+		})
+		if len(sites) > 0 {
+			pick := sites[r.Intn(len(sites))]
+			for _, s2 := range sites {
+				if s2[:6] == "reduce" && r.Chance(0.7) {
+					pick = s2
+					break
+				}
+			}
+			mode := "panic"
+			if pick[:6] != "reduce" {
+				mode = r.PickS("error", "panic")
+			}
+			site := pick[7:]
+			if pick[:6] != "reduce" {
+				site = pick[len("readerfunc|"):]
+			}
+			c.UFaults = []*world.UFault{{Site: site, Mode: mode, Skip: r.Pick(0, 0, 3)}}
+			zsp := gen.KVProgram(r, "z")
+			c.Script = append(c.Script,
+				world.Step{Op: "run", ID: "rz", Func: "prog0", Spec: zsp, MustSucceed: true},
+				world.Step{Op: "scan", Of: "rz", MustSucceed: true})
+		}
+	}
+	if cfg.Executor == "cluster" && len(c.UFaults) == 0 && r.Chance(0.5) {
 		evs, ro := recon(c)
 		if ro.Verdict == "ok" {
 			var cands []simnet.Event
@@ -92,6 +131,15 @@ func GenC14(seed uint64, i int) *world.Case {
 		}
 	}
 	return c
+}
+
+func walkSteps(steps []world.Step, f func(st *world.Step)) {
+	for i := range steps {
+		f(&steps[i])
+		for _, p := range steps[i].Par {
+			walkSteps(p, f)
+		}
+	}
 }
 
 // C14 — cluster manager: no oversubscription, no leaks.
